@@ -6,7 +6,9 @@ TF = APP + "/src/plugin/output/default/traversal/traversal_output_format.rs"
 wit = KaniUnit("c20_wit", APP, modules=[dict(file=TF, src="c20_formats_wit.rs")], harnesses=[])
 wit.native_witnesses = ["c20_wit_every_route_format_follows_the_edge_sequence"]
 rg = VerusUnit("c20_route_geom", "c20_route_geom", rlimit=30, paired_kani=(wit, []))
-UNITS = [rg, wit]
+uw = KaniUnit("c20_uuid_wit", APP, modules=[dict(file=APP + "/src/plugin/output/default/uuid/plugin.rs", src="c20_uuid_wit.rs")], harnesses=[])
+uw.native_witnesses = ["c20_wit_identifier_table_row_i_is_vertex_i"]
+UNITS = [rg, wit, uw]
 EXPLANATION = ("ONE kernel of C20 (its first mechanism: geometry lookup by edge id and concatenation in route order), NOT the agreement between the encoders. Decided (Verus, verbatim traversal_ops::create_route_linestring, "
                "create_route_geojson, create_edge_geometry, create_branch_geometry, any route and geometry table): the route geometry is the concatenation of the STORED geometries of the route's edges IN ROUTE ORDER; a geometry missing from the "
                "table is an error, never a shortened or shifted geometry; the GeoJSON output has one feature per route edge IN ROUTE ORDER, each made of that edge's traversal record and ITS stored geometry; an edge's / branch's geometry is the table row of its edge id. A native witness runs every route output format of the real TraversalOutputFormat "
